@@ -27,7 +27,10 @@ class C08(Prop):
                               max_days=(45 if tier == 'quick' else 400)) for _ in range(n)]
         # every alpha model, static and dynamic universes: the rules driven by the recorded allocation rows
         for _ in range(n // 2):
-            c = sl.gen_session(rng, tier, all_quoted=True, max_days=(35 if tier == 'quick' else 200))
+            if rng.random() < 0.2:
+                c = sl.gen_timed_session(rng, tier, max_days=(35 if tier == 'quick' else 200))     # weights (and their key set) changing with time
+            else:
+                c = sl.gen_session(rng, tier, all_quoted=True, max_days=(35 if tier == 'quick' else 200))
             c['stream'] += ':rows'
             c['any_alpha'] = True
             out.append(c)
